@@ -11,7 +11,7 @@ On success copies patch.diff, demo files and notes.md to /verif/seeded/<pid>-<ta
 import argparse, json, os, pathlib, re, shutil, subprocess, sys, time
 
 ROOT = pathlib.Path(__file__).resolve().parent.parent
-WT = pathlib.Path('/tmp/vf_seed_eval')
+WT = pathlib.Path(f'/tmp/vf_seed_eval_{os.getpid()}')
 
 
 def sh(*a, **k):
